@@ -82,6 +82,8 @@ func runOne(t *testing.T, p *Prop, tier string, W, S *simrt.Choices, avoid map[s
 		cfg = p.Config(cs)
 	}
 	ctx := &Ctx{Tier: tier, Avoid: avoid, st: st}
+	racesBefore := simrt.RaceErrors()
+	raceLogBefore := raceLogSize()
 	start := time.Now()
 	res := simrun.Run(t, cfg, S, func(mt *simrt.Task) {
 		ctx.Sim = mt.Sim()
@@ -96,6 +98,7 @@ func runOne(t *testing.T, p *Prop, tier string, W, S *simrt.Choices, avoid map[s
 	}
 	out := Outcome{Res: res, W: W.Rec, Case: cs, WallNs: int64(time.Since(start)), SimTimeNs: int64(res.SimTime)}
 	switch {
+	case raceViolation(p, racesBefore, raceLogBefore, &out):
 	case ctx.viol != nil:
 		out.Viol = ctx.viol
 	case res.Verdict == simrt.VCrash:
@@ -135,6 +138,21 @@ func runOne(t *testing.T, p *Prop, tier string, W, S *simrt.Choices, avoid map[s
 		m[res.SchedHash] = struct{}{}
 	}
 	return out
+}
+
+// raceViolation turns a ThreadSanitizer report whose two conflicting accesses
+// are both in Inbucket code into a violation; reports about the harness's own
+// bookkeeping are counted and ignored.
+func raceViolation(p *Prop, racesBefore int, logBefore int64, out *Outcome) bool {
+	if simrt.RaceErrors() <= racesBefore {
+		return false
+	}
+	cls, detail := raceReport(logBefore)
+	if cls == "" {
+		return false
+	}
+	out.Viol = &Violation{Class: p.ID + "/data-race:" + cls, Msg: "ThreadSanitizer reported a data race on this schedule:\n" + detail}
+	return true
 }
 
 func blockedSummary(bl []string) string {
@@ -194,10 +212,12 @@ func TestSim(t *testing.T) {
 			QuickRuns, ThoroughRuns       int
 			Real, Stub, Assumptions       []string
 			BudgetIsViolation             bool
+			RaceMode                      bool
+			RaceCompanion                 string
 		}
 		var l []pi
 		for _, p := range props {
-			l = append(l, pi{p.ID, p.Level, p.Rule, p.QuickRuns, p.ThoroughRuns, p.Real, p.Stub, p.Assumptions, p.BudgetIsViolation})
+			l = append(l, pi{p.ID, p.Level, p.Rule, p.QuickRuns, p.ThoroughRuns, p.Real, p.Stub, p.Assumptions, p.BudgetIsViolation, p.RaceMode, p.RaceCompanion})
 		}
 		sort.Slice(l, func(i, j int) bool { return l[i].ID < l[j].ID })
 		writeJSON(*fOut, l)
